@@ -48,6 +48,22 @@ class _QueuedResourceWorkerAdapter(Entity):
     def has_capacity(self) -> bool:
         return self._resource.has_capacity()
 
+    # The adapter runs the resource's work logic, so it is down exactly when
+    # the resource is: a crashed/paused QueuedResource must not keep serving
+    # its backlog through this internal entity.  Work frozen in flight is
+    # parked on the resource, where the restart of the resource finds it.
+    @property
+    def _crashed(self) -> bool:
+        return getattr(self._resource, "_crashed", False)
+
+    @property
+    def _parked_continuations(self):
+        return getattr(self._resource, "_parked_continuations", None)
+
+    @_parked_continuations.setter
+    def _parked_continuations(self, value) -> None:
+        self._resource._parked_continuations = value
+
 
 class QueuedResource(Entity, ABC):
     """An entity fronted by a queue.
